@@ -164,6 +164,10 @@ pub trait Check: Sync {
     fn required_probes(&self, _tier: Tier) -> Vec<String> {
         vec![]
     }
+    /// run every second batch of the thorough tier with the release-like ("fast") build, if present
+    fn fast_flavour_share(&self) -> bool {
+        false
+    }
     /// per-case wall-clock watchdog in seconds (backstop only)
     fn watchdog_s(&self, _tier: Tier) -> u64 {
         30
